@@ -186,18 +186,14 @@ impl ForwardedStreamSource {
     }
 
     async fn read_body(&mut self) -> io::Result<pipe::Data> {
-        let mut state = match std::mem::replace(&mut self.state, SourceState::Done) {
+        // The state must stay in place while waiting for the client: the pipe drops this future
+        // (for example, when the idle timer of the other direction fires) and reads again later
+        let state = match &mut self.state {
             SourceState::TransferringBody(x) => x,
             _ => unreachable!(),
         };
 
         let result = state.source.read().await?;
-
-        self.state = SourceState::TransferringBody(state);
-        let state = match &mut self.state {
-            SourceState::TransferringBody(x) => x,
-            _ => unreachable!(),
-        };
 
         match (result, &state.body_length) {
             (pipe::Data::Chunk(mut bytes), BodyLength::Determined(n)) if state.sent_bytes < *n => {
